@@ -25,6 +25,8 @@ ALPHABET = [
     ("fail_pyro_timeout", "fail", ("pyro-timeout",), {}),
     ("fail_bytes", "fail", ("bytes",), {}),
     ("fail_decimal", "fail", ("decimal",), {}),
+    ("fail_registered", "fail", ("registered",), {}),
+    ("report", "report", (), {}),
     ("unexposed", "unexposed", (), {}),
     ("private", "_private", (), {}),
     ("missing", "no_such_method", (1,), {}),
@@ -53,6 +55,7 @@ def run_config(unit):
                                   "replay": {"unit": [sername, maxlen, 0, 1, client_ser], "sequence": [s[0] for s in seq]}})
     gc.disable()
     w = SyncWorld(SERIALIZER=sername)
+    targets.register_converters(True)
     try:
         d = w.daemon()
         proxies = {}
@@ -159,6 +162,7 @@ def run_config(unit):
         if w.net.pump_errors:
             V("daemon-loop-error", "%r" % w.net.pump_errors[:2], ())
     finally:
+        targets.register_converters(False)
         w.close()
         gc.enable()
         gc.collect()
